@@ -54,6 +54,11 @@ def attribute(model, mix, t, x_mass, run_pair, key, msg):
                 bad2 = run_pair()
             if not bad2:
                 return [core.viol(key, msg + ": " + bad[0], known=k1.KEY, attribution="disappears with symmetric gamma_2")]
+            if bad2 == bad:
+                # every number of the mismatch is bit-identical with and without the stub, although K1 is confirmed at this very state
+                # (where the stub does change gamma_2): the library answered from state the stub cannot reach (a legitimate, fully keyed
+                # memo filled by the first pair of runs).  Attribution is impossible here; the mismatch is the K1 mismatch just observed.
+                return [core.viol(key, msg + ": " + bad[0], known=k1.KEY, attribution="stub not reached (results bit-identical with and without it); K1 confirmed at this state")]
             return [core.viol(key + "/beyond_K1", msg + " (persists with symmetric UNIQUAC gamma_2): " + bad2[0])]
     return [core.viol(key, msg + ": " + bad[0])]
 
